@@ -94,7 +94,7 @@ Write ==
          ackOk == b.ack = "ack" /\ b.ackdt < Timeout
          InTime(x) == ackOk /\ x.delay < Timeout
          datas == SelectSeq(b.ans, LAMBDA x : IsData(x.k))
-         rec   == [src |-> Tester, dst |-> cur, d |-> Req, ackdl |-> ackOk, ackdt |-> b.ackdt,
+         rec   == [src |-> Tester, dst |-> cur, d |-> Req, ack |-> (b.ack = "ack"), ackdt |-> b.ackdt,
                    anss |-> SeqMap(datas, LAMBDA x : [a |-> IF x.k = "far" THEN Far ELSE cur, to |-> Tester,
                                                        d |-> AnsData(x.k), dt |-> b.ackdt + x.delay,
                                                        dl |-> InTime(x)])]
